@@ -66,9 +66,9 @@ type trigModel struct {
 	cnt  [2]int  // KeyReceived since the last firing (concrete)
 	fire [2]bool // reached n since the last Poll
 	// watermark
-	pend [2]bool // received since it was last polled by the watermark trigger (symbolic)
-	wmSet bool  // a watermark was received (before that the watermark is Go's zero time)
-	wmSec int64 // the last watermark received
+	pend  [2]bool // received since it was last polled by the watermark trigger (symbolic)
+	wmSet bool    // a watermark was received (before that the watermark is Go's zero time)
+	wmSec int64   // the last watermark received
 	// end of stream
 	seen [2]bool
 	eos  bool
